@@ -361,3 +361,122 @@ theorem loopStep_eq_substLit (i : Sym) (B : List Stmt) (hn : noDefs B = true) (v
   | ok s' => simp only [Except.map]; rw [leave_eq_withEnv_of_noDefs ext hn s s' i v h]
 
 end Exo.C01
+
+namespace Exo.C01
+open Exo
+variable {V : Type} [DataAlg V] (ext : String → List V → V)
+
+/-- loop fusion at the level of steps (`iterate_fission` read right to left, with equality of
+    the success behaviour) -/
+theorem iterate_fuse (f g : Int → State V → Except Err (State V))
+    (hc : ∀ v w, v < w → ∀ s, ExEq (g v s >>= f w) (f w s >>= g v)) (n : Nat) (k : Int) (σ : State V) :
+    ExEq (iterate f n k σ >>= iterate g n k) (iterate (fun v s => f v s >>= g v) n k σ) :=
+  (iterate_fission f g hc n k σ).symm
+
+/-- a step that commutes with each `f w` commutes with a whole run of them (any start index) -/
+theorem commute_run (f : Int → State V → Except Err (State V))
+    (g : State V → Except Err (State V)) (lo : Int)
+    (hc : ∀ w, lo ≤ w → ∀ s, ExEq (g s >>= f w) (f w s >>= g)) :
+    ∀ (n : Nat) (k : Int), lo ≤ k → ∀ (σ : State V),
+      ExEq (g σ >>= iterate f n k) (iterate f n k σ >>= g)
+  | 0, k, _, σ => by
+    simp only [iterate, pure, Except.pure, bind, Except.bind]
+    cases g σ <;> exact ExEq.refl _
+  | n + 1, k, hk, σ => by
+    have ih := commute_run f g lo hc n (k + 1) (by omega)
+    have e1 : (g σ >>= iterate f (n + 1) k) = ((g σ >>= f k) >>= iterate f n (k + 1)) := by
+      simp only [iterate, bind, Except.bind]
+      cases g σ <;> rfl
+    have e2 : (iterate f (n + 1) k σ >>= g) = (f k σ >>= fun s => iterate f n (k + 1) s >>= g) := by
+      simp only [iterate, bind, Except.bind]
+      cases f k σ <;> rfl
+    rw [e1, e2]
+    have step1 : ExEq ((g σ >>= f k) >>= iterate f n (k + 1)) ((f k σ >>= g) >>= iterate f n (k + 1)) :=
+      ExEq.bind_congr (hc k hk σ) (fun _ => ExEq.refl _)
+    have e3 : ((f k σ >>= g) >>= iterate f n (k + 1)) = (f k σ >>= fun s => g s >>= iterate f n (k + 1)) := by
+      simp only [bind, Except.bind]
+      cases f k σ <;> rfl
+    rw [e3] at step1
+    exact step1.trans (ExEq.bind_congr (ExEq.refl _) (fun s => ih s))
+
+/-- a run of `g`s commutes past a run of `f`s when every single `g v` commutes with every `f w` -/
+theorem run_commute_run (f g : Int → State V → Except Err (State V))
+    (hc : ∀ v w s, ExEq (g v s >>= f w) (f w s >>= g v)) :
+    ∀ (m : Nat) (j : Int) (n : Nat) (k : Int) (σ : State V),
+      ExEq (iterate g m j σ >>= iterate f n k) (iterate f n k σ >>= iterate g m j)
+  | 0, j, n, k, σ => by
+    simp only [iterate, pure, Except.pure, bind, Except.bind]
+    cases iterate f n k σ <;> exact ExEq.refl _
+  | m + 1, j, n, k, σ => by
+    have ih := run_commute_run f g hc m (j + 1) n k
+    have c1 := fun s => commute_run f (g j) k (fun w _ s => hc j w s) n k (Int.le_refl _) s
+    -- (g j ; G) ; F  =  g j ; (G ; F)  ≈  g j ; (F ; G)  =  (g j ; F) ; G  ≈  (F ; g j) ; G  =  F ; (g j ; G)
+    have a1 : (iterate g (m + 1) j σ >>= iterate f n k)
+        = (g j σ >>= fun s => iterate g m (j + 1) s >>= iterate f n k) := by
+      simp only [iterate, bind, Except.bind]
+      cases g j σ <;> rfl
+    have a2 : ExEq (g j σ >>= fun s => iterate g m (j + 1) s >>= iterate f n k)
+        (g j σ >>= fun s => iterate f n k s >>= iterate g m (j + 1)) :=
+      ExEq.bind_congr (ExEq.refl _) (fun s => ih s)
+    have a3 : (g j σ >>= fun s => iterate f n k s >>= iterate g m (j + 1))
+        = ((g j σ >>= iterate f n k) >>= iterate g m (j + 1)) := by
+      simp only [bind, Except.bind]
+      cases g j σ <;> rfl
+    have a4 : ExEq ((g j σ >>= iterate f n k) >>= iterate g m (j + 1))
+        ((iterate f n k σ >>= g j) >>= iterate g m (j + 1)) :=
+      ExEq.bind_congr (c1 σ) (fun _ => ExEq.refl _)
+    have a5 : ((iterate f n k σ >>= g j) >>= iterate g m (j + 1))
+        = (iterate f n k σ >>= iterate g (m + 1) j) := by
+      simp only [iterate, bind, Except.bind]
+      cases iterate f n k σ <;> rfl
+    rw [a1]
+    rw [a3] at a2
+    rw [a5] at a4
+    exact a2.trans a4
+
+/-- **loop interchange** at the level of steps: a rectangular double iteration may be run in
+    either nesting order when every step `(a, b)` commutes with every step `(a', b')` that the
+    interchange moves past it (`a < a'` and `b' < b`) -/
+theorem iterate_interchange (f : Int → Int → State V → Except Err (State V))
+    (hc : ∀ a a' b b', a < a' → b' < b → ∀ s, ExEq (f a b s >>= f a' b') (f a' b' s >>= f a b))
+    (m : Nat) (j : Int) :
+    ∀ (n : Nat) (k : Int) (σ : State V),
+      ExEq (iterate (fun a s => iterate (fun b => f a b) m j s) n k σ)
+           (iterate (fun b s => iterate (fun a => f a b) n k s) m j σ)
+  | 0, k, σ => by
+    -- no outer iterations: the right-hand side runs m empty inner loops
+    have : ∀ (m' : Nat) (j' : Int) (s : State V),
+        iterate (fun b s => iterate (fun a => f a b) 0 k s) m' j' s = .ok s := by
+      intro m'
+      induction m' with
+      | zero => intro _ _; rfl
+      | succ m' ih => intro j' s; simp only [iterate, bind, Except.bind, pure, Except.pure]; exact ih (j' + 1) s
+    rw [this]
+    exact ExEq.refl _
+  | n + 1, k, σ => by
+    have ih := iterate_interchange f hc m j n (k + 1)
+    -- left: row k, then the remaining rows (interchanged by ih)
+    have l1 : iterate (fun a s => iterate (fun b => f a b) m j s) (n + 1) k σ
+        = (iterate (fun b => f k b) m j σ >>= iterate (fun a s => iterate (fun b => f a b) m j s) n (k + 1)) := by
+      simp only [iterate]
+    have l2 : ExEq (iterate (fun b => f k b) m j σ >>= iterate (fun a s => iterate (fun b => f a b) m j s) n (k + 1))
+        (iterate (fun b => f k b) m j σ >>= iterate (fun b s => iterate (fun a => f a b) n (k + 1) s) m j) :=
+      ExEq.bind_congr (ExEq.refl _) (fun s => ih s)
+    -- fuse the two b-loops: needs  (rest of column b) commutes with (f k b') for b < b'
+    have fuse := iterate_fuse (fun b => f k b) (fun b s => iterate (fun a => f a b) n (k + 1) s)
+      (fun b b' hbb' s => by
+        -- column-rest at b, then f k b'   vs   f k b', then column-rest at b
+        have := commute_run (fun a => f a b) (f k b') (k + 1)
+          (fun a ha s => (hc k a b' b (by omega) hbb' s)) n (k + 1) (Int.le_refl _) s
+        exact this.symm) m j σ
+    -- each fused step is a full column starting at row k
+    have cols : (fun b s => f k b s >>= fun t => iterate (fun a => f a b) n (k + 1) t)
+        = (fun b s => iterate (fun a => f a b) (n + 1) k s) := by
+      funext b s
+      simp only [iterate]
+    rw [l1]
+    refine l2.trans (fuse.trans ?_)
+    rw [cols]
+    exact ExEq.refl _
+
+end Exo.C01
